@@ -803,12 +803,19 @@ func C06(r *eng.Run) {
 	if wr.Mutated != "" {
 		r.FailProp("C17", "caller_slice_modified", "%s: %s", cfg, wr.Mutated)
 	}
-	if cfg.Ctor == 4 {
+	// (A writer from NewWriterSize with a power-of-two size is one the pool
+	// actually keeps when it is released with PutWriter.)
+	poolable := cfg.Ctor == 1 && cfg.Size >= 128 && cfg.Size&(cfg.Size-1) == 0
+	if cfg.Ctor == 4 || poolable {
 		// Back to the pool, and the next user of that size class (maybe on
 		// the other side) gets a writer from GetWriter again: whatever the
 		// pool hands out must be a well-behaved writer.
 		wsutil.PutWriter(wr.W)
 		cfg2 := cfg
+		cfg2.Ctor = 4
+		if poolable {
+			r.Probe("sized_writer_released_to_the_pool")
+		}
 		cfg2.Client, cfg2.NoFlush, cfg2.Ext, cfg2.Ext2 = r.T.Bool(sim.LSide), false, 0, 0
 		cfg2.Ext3, cfg2.SwapExt, cfg2.NoSide = false, false, false
 		if cfg2.Size < 7 {
